@@ -231,6 +231,32 @@ def _rewrite_block(stmts: list) -> list:
                 out.append(_loc(new, st))
                 i += 2
                 continue
+        # N16 parallel assignment of a tuple literal to plain names / self attributes without cross dependency -> sequential
+        if isinstance(st, ast.Assign) and len(st.targets) == 1 and isinstance(st.targets[0], (ast.Tuple, ast.List)) \
+                and isinstance(st.value, (ast.Tuple, ast.List)) and len(st.targets[0].elts) == len(st.value.elts) \
+                and all(isinstance(t_, ast.Name) or (isinstance(t_, ast.Attribute) and isinstance(t_.value, ast.Name)
+                                                     and t_.value.id == "self") for t_ in st.targets[0].elts) \
+                and not any(isinstance(v_, ast.Starred) for v_ in st.value.elts):
+            tnames = {t_.id if isinstance(t_, ast.Name) else "self." + t_.attr for t_ in st.targets[0].elts}
+            has_attr_target = any(isinstance(t_, ast.Attribute) for t_ in st.targets[0].elts)
+
+            def _reads(v_):
+                r = set(_names(v_))
+                for a_ in ast.walk(v_):
+                    if isinstance(a_, ast.Attribute) and isinstance(a_.value, ast.Name) and a_.value.id == "self":
+                        r.add("self." + a_.attr)
+                    if has_attr_target and isinstance(a_, ast.Call):
+                        r.add("self.*")      # a call might read the attribute being stored
+                return r
+            cross = any((tnames & _reads(v_)) or ("self.*" in _reads(v_)) for v_ in st.value.elts[1:]) or \
+                any(tnames & set(_names(v_)) for v_ in st.value.elts)
+            if not cross and len(tnames) == len(st.targets[0].elts):
+                for t_, v_ in zip(st.targets[0].elts, st.value.elts):
+                    tgt = ast.Name(id=t_.id, ctx=ast.Store()) if isinstance(t_, ast.Name) else \
+                        ast.Attribute(value=ast.Name(id="self", ctx=ast.Load()), attr=t_.attr, ctx=ast.Store())
+                    out.append(_loc(ast.Assign(targets=[tgt], value=v_), st))
+                i += 1
+                continue
         # N9 if/else assigning the same name -> conditional expression
         if isinstance(st, ast.If) and len(st.body) == 1 and len(st.orelse) == 1 \
                 and all(isinstance(x, ast.Assign) and len(x.targets) == 1 and isinstance(x.targets[0], ast.Name) for x in (st.body[0], st.orelse[0])) \
